@@ -164,6 +164,9 @@ def _run(ctx: Ctx) -> Result:
         keypath('key-spend witness made for a different committed script', w_otherscript, sf, False)
         j = rng.randrange(64); flipped = sig64[:j] + bytes([sig64[j] ^ (1 << rng.randrange(8))]) + sig64[j + 1:] + sigitem[64:]
         keypath('one bit of the signature flipped', push(flipped), sf, ed.verify(root, G.ref_message(sf, wflag), flipped[:64]))
+        for junk in (b'\x00', b'\x00\x00', bytes([wflag]) + b'\x01', V.rbytes(rng, 3)):
+            item = sigitem + (b'' if len(sigitem) == 65 else bytes([wflag])) + junk
+            keypath(f'valid signature item followed by {len(junk)} extra byte(s) ({len(item)} bytes)', push(item), sf, False)
         covered = [k for k in sf if not (wflag >> (int(k[8:]) - 1)) & 1]
         if covered:
             k = rng.choice(covered); sf2 = {**sf, k: sf[k] + b'!'}
